@@ -14,7 +14,9 @@ const ENV: &[&str] = &["X = 2", "Y = 3.5", "Z = 0", "W = 0 - 1.5", "A$ = \"HI\""
 
 fn leaf(rng: &mut Rng) -> String {
     match rng.below(12) {
-        0..=3 => format!("n{}", enc_f64(rng.pick(&[0.0, 1.0, 2.0, 3.0, 0.5, 10.0, 7.0, 1e10, 0.1, 255.0, 1e-5, 1e-16, 2.220446049250313e-16, 1e-300, 5e-324, 0.3, 0.2]))),
+        0..=3 => format!("n{}", enc_f64(rng.pick(&[0.0, 1.0, 2.0, 3.0, 0.5, 10.0, 7.0, 1e10, 0.1, 255.0, 1e-5, 1e-16, 2.220446049250313e-16, 1e-300, 5e-324, 0.3, 0.2,
+            // around 2^53, 2^63, 2^64 and 10^19, where conversions to integers saturate or lose digits
+            9007199254740993.0, 9.5e18, 9223372036854775808.0, 9223372036854777856.0, 1e19, 18446744073709551616.0, 4611686018427387904.0, 9.99e18, 2.5e15 + 0.5]))),
         4..=6 => format!("v{}", hex(rng.pick(&["X", "Y", "Z", "W", "U"]))),
         7..=8 => format!("s{}", hex(rng.pick(&["", "HI", "A", "hi", "HI THERE", "é"]))),
         _ => format!("v{}", hex(rng.pick(&["A$", "B$", "C$", "U$"]))),
